@@ -371,6 +371,26 @@ Example c18_multi_process_example :
   List.length (retrieve_model (readlines (List.concat (map render (map snd outs))))) = 3%nat.
 Proof. vm_compute. repeat split. Qed.
 
+(* retrieve takes a LIST OF LINES; it must not matter whether the lines still carry their
+   terminator (readlines) or not (str.splitlines(), rstrip, one log message per element):
+   for EVERY text, retrieve over the lines with their newline removed finds what the regex
+   finds in the text — hence, with c18_readlines_join_transparent, the same as over the
+   keepends lines, and with c18_framing exactly the payloads of a valid stream. *)
+Theorem c18_retrieve_line_terminators :
+  forall t : list Z,
+    retrieve_model (map strip_nl (readlines t)) = findall t /\
+    retrieve_model (map strip_nl (readlines t)) = retrieve_model (readlines t).
+Proof. intro t. split; [exact (retrieve_stripped_lines t) | rewrite retrieve_readlines; exact (retrieve_stripped_lines t)]. Qed.
+Print Assumptions c18_retrieve_line_terminators.
+
+Example c18_retrieve_line_terminators_example :
+  let t := (codes "x[tune-metric]: {""a"": {""b"": 1}}" ++ [NL] ++ codes "noise }" ++ [NL] ++ codes "[tune-metric]: {""c"": 2}" ++ [NL])%list in
+  map strip_nl (readlines t) = [codes "x[tune-metric]: {""a"": {""b"": 1}}"; codes "noise }"; codes "[tune-metric]: {""c"": 2}"] /\
+  retrieve_model (map strip_nl (readlines t)) = [codes "{""a"": {""b"": 1}}"; codes "{""c"": 2}"] /\
+  (* joined with nothing instead of a newline the greedy group runs to the last brace of the log *)
+  findall (List.concat (map strip_nl (readlines t))) = [codes "{""a"": {""b"": 1}}noise }[tune-metric]: {""c"": 2}"].
+Proof. vm_compute. repeat split. Qed.
+
 (* non-vacuity: other output without newline on the same line as a report,
    braces in the other output, a payload containing the whole tag prefix and
    braces, a rejected report in between — hypotheses hold, result as stated *)
